@@ -14,7 +14,9 @@
   Verdicts: "adm", "na" (no limit configured / the command's own semantics is outside the model) or "rej:<clause>":
     down        the server must keep running under every policy
     admitted    noeviction: a write (a command that stores or changes a value) at usage ≥ limit was not refused
-    refused     noeviction: a command was refused although usage < limit (or it stores nothing)
+    refused     noeviction: a command was refused although usage never reached the limit (or it stores nothing)
+    partial     noeviction: a command was refused half way (its own first write took usage to the limit) and left
+                part of its effect behind
     post        noeviction: something was removed or changed beyond the command's own effect
     survivor    eviction policy: a key that survives is not what the command alone leaves
     below-limit a key was removed although usage never reached the limit
@@ -95,7 +97,12 @@ def verdict (c : Ctx) (cmd : List Bytes) (pre : EState) (base : Option (State ×
         -- a command that would store the value already there may be refused as well
         if !sameUpToExpiry c.now pre.s post.s then "rej:post" else "adm"
       else
-        if isErr && baseOk then "rej:refused" else if !sameData sb post.s then "rej:post" else "adm"
+        if isErr && baseOk then
+          -- refused although usage was below the limit when the command started: admissible only if the command itself
+          -- drove usage to the limit, and then nothing of it may stay behind
+          if max basePeak pre.s.mem < limit then "rej:refused"
+          else if !sameUpToExpiry c.now pre.s post.s then "rej:partial" else "adm"
+        else if !sameData sb post.s then "rej:post" else "adm"
     else
       let evicted := (keysOf sb).filter fun (d, k) => (post.s.lookup d k).isNone
       let named (k : Bytes) : Bool := (cmd.drop 1).contains k
